@@ -62,7 +62,15 @@ meta = {
     "check_result_quick": verdict,
     "check_oracle": oracle.strip(),
 }
-json.dump(meta, open(os.path.join(d, "meta.json"), "w"), indent=1)
+old = os.path.join(d, "meta.json")
+if os.path.exists(old):
+    try:
+        prev = json.load(open(old))
+        if "ported" in prev:
+            meta["ported"] = prev["ported"]
+    except Exception:
+        pass
+json.dump(meta, open(old, "w"), indent=1)
 EOF
   echo "FILED $d"
 else
